@@ -293,12 +293,16 @@ var c06Hand = []string{
 func init() {
 	run.Register(&run.Prop{
 		ID: "C06", Level: "exploration", MinNontrivial: 100, Race: true, HangFails: true,
-		Rule:        "a case is (program, input, mode); the worker binary is built with the Go race detector. The program is first run alone (baseline), then G goroutines each run it R times at once in one of four modes — shared compiled *Code or shared parsed *Query (concurrent compilation), each on private copies of the input or on ONE shared input that a canary goroutine keeps deep-reading (the caller's read-only use) — and every run must equal the baseline; afterwards the race log of the process is checked for new `WARNING: DATA RACE` blocks with a gojq frame; a runtime fatal error kills the worker and is attributed to the case by the journal. parse: 8 goroutines Parse, print and compile 8 different query texts (string literals with escapes of 1..2000 characters, keys, formats, comments, definitions, metadata) 40 times each; every result must be what the same call gives alone. marshal: 8 goroutines Marshal, preview and serialise (tojson, tostring, @json, @text, interpolation, @csv, @sh) 8 different values 60 times each — strings of control characters, invalid UTF-8, numbers of every representation, objects. Programs: delete/update/sort/add programs over inputs and over literals folded into the code, regex programs (shared cache), a sweep of every builtin, the corpus, generated update-heavy programs. Non-trivial = distinct (mode, program, input) whose run emits a value or an error.",
+		Rule:        "a case is (program, input, mode); the worker binary is built with the Go race detector. The program is first run alone (baseline), then G goroutines each run it R times at once in one of four modes — shared compiled *Code or shared parsed *Query (concurrent compilation), each on private copies of the input or on ONE shared input that a canary goroutine keeps deep-reading (the caller's read-only use) — and every run must equal the baseline; afterwards the race log of the process is checked for new `WARNING: DATA RACE` blocks with a gojq frame; a runtime fatal error kills the worker and is attributed to the case by the journal. parse: 8 goroutines Parse, print and compile 8 different query texts (string literals with escapes of 1..2000 characters, keys, formats, comments, definitions, metadata) 40 times each; every result must be what the same call gives alone. mixed: on one Code 8 goroutines make 200 runs that end in different ways (complete, cancelled after the first value and drained, abandoned, advanced after the end, refused for too many / too few variable values): complete runs equal the run alone, refused ones give their error every time. marshal: 8 goroutines Marshal, preview and serialise (tojson, tostring, @json, @text, interpolation, @csv, @sh) 8 different values 60 times each — strings of control characters, invalid UTF-8, numbers of every representation, objects. Programs: delete/update/sort/add programs over inputs and over literals folded into the code, regex programs (shared cache), a sweep of every builtin, the corpus, generated update-heavy programs. Non-trivial = distinct (mode, program, input) whose run emits a value or an error.",
 		Assumptions: []string{"the Go race detector (happens-before) reports a race only when both accesses occur in the run; it reports each racing stack pair once per process", "a user-supplied input iterator or callback that is not thread-safe is the caller's side of the contract and is not exercised"},
 		Body: func(c *run.Ctx) {
 			// Parse / String / Compile of different texts at once
 			for _, t := range c06ParseCases() {
 				kC06Parse.Do(c, t)
+			}
+			// runs that end in different ways, at once on one Code
+			for _, src := range c06MixedSrcs {
+				kC06Mixed.Do(c, c06MixedCase{Src: src, Input: run.TV{V: []any{1, 2, 3, 4, 5, 6}}})
 			}
 			// Marshal / Preview / tojson of different values at once
 			for _, t := range c06MarshalCases() {
